@@ -115,9 +115,18 @@ def evaluate(ctx, job, meta, res):
     got = res['value']
     if canon(got) != canon(want):
         leaves = diff_leaves(got, want)
+        def base_at(path):
+            v = base
+            try:
+                for k in path:
+                    v = v[k]
+            except (KeyError, IndexError, TypeError):
+                return ''
+            return v if isinstance(v, str) else ''
         only_str = all(isinstance(a, str) and isinstance(b, str) for _, a, b in leaves)
-        exo = only_str and all(any(c in (a + b) for c in EXOTIC) for _, a, b in leaves)
-        astral = only_str and not exo and all(any(ord(c) > 0xFFFF for c in (a + b)) for _, a, b in leaves)
+        # the patched string (before or after) contains one of the separators the two languages treat differently
+        exo = only_str and all(any(c in (a + b + base_at(p)) for c in EXOTIC) for p, a, b in leaves)
+        astral = only_str and not exo and all(any(ord(c) > 0xFFFF for c in (a + b + base_at(p))) for p, a, b in leaves)
         ctx.violation('the TypeScript %s gives a different document than Python at %s' % ('patch' if kind == 'patch' else 'applyDecisions', [list(p) for p, _, _ in leaves][:3]),
                       dict(data, kind='ts-differs', got=enc(got), only_exotic_strings=exo, only_astral_strings=astral))
 
